@@ -175,10 +175,37 @@ impl Srv {
         Err(CallErr::NoReply)
     }
 
+    /// write all bytes, releasing loop iterations whenever the socket buffer is full (large requests)
+    pub fn send_all(&self, c: &mut Client, bytes: &[u8]) -> Result<(), CallErr> {
+        let mut off = 0;
+        let mut stalls = 0u32;
+        while off < bytes.len() {
+            let n = c.send_some(&bytes[off..]);
+            off += n;
+            if n == 0 {
+                if c.closed {
+                    return Err(CallErr::Closed);
+                }
+                match self.step() {
+                    StepResult::Arrived => {}
+                    StepResult::Died => return Err(CallErr::ServerDied),
+                    StepResult::Parked => return Err(CallErr::Parked),
+                }
+                stalls += 1;
+                if stalls > 1_000_000 {
+                    return Err(CallErr::NoReply);
+                }
+            }
+        }
+        Ok(())
+    }
+
     /// send one command and step until one reply frame is decoded (at most `budget` steps)
     pub fn call<T: AsRef<[u8]>>(&self, c: &mut Client, args: &[T]) -> Result<R, CallErr> {
-        c.send(&resp::cmd(args));
-        self.await_reply(c, 6)
+        let bytes = resp::cmd(args);
+        self.send_all(c, &bytes)?;
+        // the server reads 8 KiB per connection per loop iteration
+        self.await_reply(c, 6 + bytes.len() / 4096)
     }
 
     pub fn await_reply(&self, c: &mut Client, budget: usize) -> Result<R, CallErr> {
